@@ -7,7 +7,7 @@ prop, jobname = sys.argv[1], sys.argv[2]
 want = sys.argv[3] if len(sys.argv) > 3 and not sys.argv[3].startswith('--') else None
 mod = importlib.import_module('props.' + prop)
 job = [j for j in mod.jobs() if j.name == jobname][0]
-d, _ = vlib.make_scratch(job.tus, print)
+d, _ = vlib.make_scratch(job.tus, print, set(job.functions))
 a, b = d + '/a.gb', d + '/b.gb'
 dflags = ['-D%s=%s' % kv for kv in job.defines.items()] + ['-D' + x for x in os.environ.get('VERIF_DEFS', '').split()]
 rc, out, _ = vlib.run(vlib.cc_base([], d) + dflags + ['--function', job.entry, '/verif/harness/' + job.harness, '-o', a], 300)
